@@ -187,9 +187,9 @@ def attach_c12(run, rt):
     import cnvlib.target as T
     import cnvlib.antitarget as A
     import cnvlib.commands as K
-    traced = [("target.do_target", T.do_target), ("target.shorten_labels", T.shorten_labels), ("antitarget.do_antitarget", A.do_antitarget),
-              ("antitarget.get_antitargets", A.get_antitargets), ("antitarget.drop_noncanonical_contigs", A.drop_noncanonical_contigs),
-              ("antitarget.guess_chromosome_regions", A.guess_chromosome_regions)]
+    traced = [("target.do_target", rt.opt(T, "do_target")), ("target.shorten_labels", rt.opt(T, "shorten_labels")), ("antitarget.do_antitarget", rt.opt(A, "do_antitarget")),
+              ("antitarget.get_antitargets", rt.opt(A, "get_antitargets")), ("antitarget.drop_noncanonical_contigs", rt.opt(A, "drop_noncanonical_contigs")),
+              ("antitarget.guess_chromosome_regions", rt.opt(A, "guess_chromosome_regions"))]
     rt.attach(T, "do_target", name="target.do_target", pre=pre_target, post=post_target, on_exc=exc_target, also=[(K, "do_target")])
     rt.attach(A, "do_antitarget", name="antitarget.do_antitarget", pre=pre_antitarget, post=post_antitarget, on_exc=exc_antitarget, also=[(K, "do_antitarget")])
     return traced
@@ -345,8 +345,8 @@ def exc_access(run, snap, exc, args, kwargs):
 def attach_c13(run, rt):
     import cnvlib.access as A
     import cnvlib.commands as K
-    traced = [("access.get_regions", A.get_regions), ("access.do_access", A.do_access), ("access.join_regions", A.join_regions),
-              ("access.drop_noncanonical_contigs", A.drop_noncanonical_contigs)]
+    traced = [("access.get_regions", rt.opt(A, "get_regions")), ("access.do_access", rt.opt(A, "do_access")), ("access.join_regions", rt.opt(A, "join_regions")),
+              ("access.drop_noncanonical_contigs", rt.opt(A, "drop_noncanonical_contigs"))]
     rt.attach(A, "get_regions", name="access.get_regions", pre=pre_get_regions, post=post_get_regions, generator=True)
     rt.attach(A, "do_access", name="access.do_access", pre=pre_access, post=post_access, on_exc=exc_access, also=[(K, "do_access")])
     return traced
